@@ -396,3 +396,101 @@ func (e *Eng) FieldAlternatives(fn *ssa.Function, v ssa.Value) []string {
 	fromAlloc(al, 0)
 	return out
 }
+
+// ownedValue decides whether v, the object a function writes to, is the function's own: allocated
+// there, returned to it by one of the copying / decoding functions okCalls, its own parameter if the
+// function is listed in ownParam, a local variable only ever given such values, or (wrapper != "")
+// the object held in a field of an owned value of the wrapper type.  It returns "" if so, otherwise
+// a description of where the object comes from.
+func ownedValue(e *Eng, fn *ssa.Function, v ssa.Value, seen map[ssa.Value]bool, ownParam map[string]string, okCalls []string, wrapper string) string {
+	rec := func(w ssa.Value) string { return ownedValue(e, fn, w, seen, ownParam, okCalls, wrapper) }
+	if seen[v] {
+		return ""
+	}
+	seen[v] = true
+	switch x := v.(type) {
+	case *ssa.Alloc:
+		return ""
+	case *ssa.Parameter:
+		if _, ok := ownParam[fnName(fn)]; ok {
+			return ""
+		}
+		return "its parameter " + x.Name()
+	case *ssa.UnOp:
+		if x.Op == token.MUL {
+			// the variable's cell (a local, possibly captured): everything it is ever given
+			if cell := cellOf(x.X); cell != nil {
+				n := 0
+				for _, r := range *cell.Referrers() {
+					if st, ok := r.(*ssa.Store); ok && st.Addr == ssa.Value(cell) {
+						n++
+						if why := rec(st.Val); why != "" {
+							return why
+						}
+					}
+				}
+				if n > 0 {
+					return ""
+				}
+			}
+			// the object inside a wrapper: as good as the wrapper
+			if fa, ok := x.X.(*ssa.FieldAddr); ok && wrapper != "" && typeKey(fa.X.Type()) == wrapper {
+				return rec(fa.X)
+			}
+			// an element of a list that one of the copying / building functions returned
+			if ia, ok := x.X.(*ssa.IndexAddr); ok {
+				if c, ok := ia.X.(*ssa.Call); ok {
+					for _, k := range okCalls {
+						if calleeName(&c.Call) == k {
+							return ""
+						}
+					}
+				}
+			}
+		}
+	case *ssa.FieldAddr:
+		// a struct held by value in a field is part of the object that holds it
+		if ft := fieldTypeOf(x); ft != nil {
+			if _, isStruct := ft.Underlying().(*types.Struct); isStruct {
+				return rec(x.X)
+			}
+		}
+	case *ssa.Extract:
+		return rec(x.Tuple)
+	case *ssa.Next:
+		return rec(x.Iter)
+	case *ssa.Range:
+		return rec(x.X)
+	case *ssa.Phi:
+		for _, ed := range x.Edges {
+			if why := rec(ed); why != "" {
+				return why
+			}
+		}
+		return ""
+	case *ssa.TypeAssert:
+		return rec(x.X)
+	case *ssa.ChangeType:
+		return rec(x.X)
+	case *ssa.Call:
+		cn := calleeName(&x.Call)
+		for _, k := range okCalls {
+			if cn == k {
+				return "" // a copy, or objects decoded for this caller
+			}
+		}
+	}
+	return clip(e.X(fn, v))
+}
+
+func fieldTypeOf(fa *ssa.FieldAddr) types.Type {
+	t := fa.X.Type()
+	if p, ok := t.Underlying().(*types.Pointer); ok {
+		t = p.Elem()
+	}
+	st, ok := t.Underlying().(*types.Struct)
+	if !ok || fa.Field >= st.NumFields() {
+		return nil
+	}
+	return st.Field(fa.Field).Type()
+}
